@@ -6,7 +6,7 @@
    Indexes are < 2^31-64 (IDXMAX) where stated. *)
 From Coq Require Import List NArith ZArith Bool Lia.
 From HV Require Import Gen.Tables Base.BSet Bitmap.BitmapModel Bitmap.BitmapSpec
-  Bitmap.BitmapBase Bitmap.BitmapOps Bitmap.BitmapQueries Bitmap.BitmapScan Bitmap.BitmapCompare Bitmap.BitmapWeight Bitmap.BitmapRange.
+  Bitmap.BitmapBase Bitmap.BitmapOps Bitmap.BitmapQueries Bitmap.BitmapScan Bitmap.BitmapCompare Bitmap.BitmapWeight Bitmap.BitmapRange Bitmap.BitmapSinglify Bitmap.BitmapNext.
 Import ListNotations.
 Local Open Scope N_scope.
 
@@ -225,3 +225,23 @@ Proof. exact weight_counts_members. Qed.
 Theorem nr_ulongs_spec : forall r, wf r -> bm_nr_ulongs r = sp_nr_ulongs (abs r).
 Proof. exact bm_nr_ulongs_spec. Qed.
 Print Assumptions nr_ulongs_spec.
+
+(* singlify keeps the least member only.  Guard: an infinite bitmap whose valid words are all
+   zero gets one more word, so its count must be below the maximum. *)
+Theorem singlify_refines : forall r, wf r -> (infinite r = true -> count r < MAXC) ->
+  wf (bm_singlify r) /\ abs (bm_singlify r) = sp_singlify (abs r).
+Proof. exact bm_singlify_spec. Qed.
+Print Assumptions singlify_refines.
+Example singlify_nonvacuous : abs (bm_singlify ex_inf3) = bs_single 1 /\ abs (bm_singlify cf_w_from64_1w) = bs_single 64.
+Proof. split; vm_compute; reflexivity. Qed.
+
+(* next(prev): least member strictly above prev (prev = -1: the first), -1 if none *)
+Theorem next_spec : forall r prev, wf r -> (-1 <= prev < Z.of_N IDXMAX)%Z -> bm_next r prev = sp_next (abs r) prev.
+Proof. exact bm_next_spec. Qed.
+Print Assumptions next_spec.
+Theorem next_unset_spec : forall r prev, wf r -> (-1 <= prev < Z.of_N IDXMAX)%Z ->
+  bm_next_unset r prev = sp_next_unset (abs r) prev.
+Proof. exact bm_next_unset_spec. Qed.
+Print Assumptions next_unset_spec.
+Example next_nonvacuous : bm_next ex_inf3 1 = 64%Z /\ bm_next ex_inf3 127 = 192%Z /\ bm_next_unset ex_inf3 (-1) = 0%Z.
+Proof. repeat split; vm_compute; reflexivity. Qed.
